@@ -14,12 +14,13 @@
 (* The rendered module (harness/adapters/pymini_data.py):                   *)
 (*   G = 0                      <<8,1>>   module level, executed at import  *)
 (*   class Box: pass            <<8,2>>                                     *)
-(*   def h(v):                  <<8,3>>                                     *)
-(*       return v + 1           <<9,1>>                                     *)
-(*   def g(v):                  <<8,4>>                                     *)
-(*       if v:                  <<9,2>>                                     *)
-(*           return v + G       <<9,3>>                                     *)
-(*       return 0               <<9,4>>                                     *)
+(*   def h(x):                  <<8,3>>   (the helpers use the names of f's *)
+(*       y = x + 1              <<9,1>>    locals: scopes must be kept apart)*)
+(*       return y               <<9,2>>                                     *)
+(*   def g(y):                  <<8,4>>                                     *)
+(*       if y:                  <<9,3>>                                     *)
+(*           return y + G       <<9,4>>                                     *)
+(*       return 0               <<9,5>>                                     *)
 (*   def f(a, b):               <<8,5>>                                     *)
 (*       global G                                                           *)
 (*       <program>              paths as in PyMini: (tag, index) pairs,     *)
@@ -108,21 +109,22 @@ MayExit(s) == CASE s.t = "ret" -> TRUE
 
 Arith(op, m, n) == IF op = "mul" THEN m * n ELSE m + n
 
-(* x = h(y): the callee's line `return v + 1` reads the argument *)
+(* x = h(y): the callee's line `y = x + 1` reads the argument, `return y` reads the callee's local *)
 CallH(s, p, st) ==
   LET n == NextId(st)
       st1 == AddInst(st, <<9, 1>>, st.ld[s.y], {})
-      st2 == AddInst(st1, p, {n} \cup st.ld["h"], {})
-  IN Def(st2, s.x, IntV(st.env[s.y].v + 1), n + 1)
+      st2 == AddInst(st1, <<9, 2>>, {n}, {})
+      st3 == AddInst(st2, p, {n + 1} \cup st.ld["h"], {})
+  IN Def(st3, s.x, IntV(st.env[s.y].v + 1), n + 2)
 
-(* x = g(y): `if v:` decides between `return v + G` (reads the global) and `return 0` *)
+(* x = g(y): `if y:` decides between `return y + G` (reads the global) and `return 0` *)
 CallG(s, p, st) ==
   LET n == NextId(st)
       vy == st.env[s.y]
-      st1 == AddInst(st, <<9, 2>>, st.ld[s.y], {})
+      st1 == AddInst(st, <<9, 3>>, st.ld[s.y], {})
       tr == Truthy(vy)
-      st2 == IF tr THEN AddInst(st1, <<9, 3>>, {n} \cup st.ld[s.y] \cup st.ld["G"], {})
-                   ELSE AddInst(st1, <<9, 4>>, {n}, {})
+      st2 == IF tr THEN AddInst(st1, <<9, 4>>, {n} \cup st.ld[s.y] \cup st.ld["G"], {})
+                   ELSE AddInst(st1, <<9, 5>>, {n}, {})
       st3 == AddInst(st2, p, {n + 1} \cup st.ld["g"], {})
       val == IF tr THEN IntV(vy.v + st.env["G"].v) ELSE IntV(0)
   IN IF tr /\ ~IsInt(st.env["G"]) THEN [st2 EXCEPT !.flow = "x"] ELSE Def(st3, s.x, val, n + 2)
